@@ -193,6 +193,8 @@ type eval struct {
 	onIface     bool // the tag sits on a field of type interface{}
 
 	cat string // Validate(): the catalogue kind of the value
+
+	below bool // not a validator but a place: an error naming a path below it is about it as well (see runCall)
 }
 
 type pos struct {
